@@ -33,10 +33,13 @@ pub trait ExRead {
     type ExternalTraitSpecificationFor: std::io::Read;
     fn read(&mut self, buf: &mut [u8]) -> (r: std::io::Result<usize>);
 }
+/// writing raw bytes to the connection (C04 / C06: nothing reaches the wire outside a response printed by raw_print)
+pub uninterp spec fn may_write_raw() -> bool;
 #[verifier::external_trait_specification]
 pub trait ExWrite {
     type ExternalTraitSpecificationFor: std::io::Write;
-    fn write(&mut self, buf: &[u8]) -> (r: std::io::Result<usize>);
+    fn write(&mut self, buf: &[u8]) -> (r: std::io::Result<usize>)
+        requires may_write_raw();      // a capability no function of this unit is given, except `write` impls that forward (they inherit it)
     fn flush(&mut self) -> (r: std::io::Result<()>)
         ensures flush_called();
     fn by_ref(&mut self) -> (r: &mut Self) where Self: Sized
